@@ -230,6 +230,10 @@ func (s *Sched) threadMain(t *Thread, body func()) {
 		t.done = true
 		return
 	}
+	// a thread that starts running makes a step (its first segment may already change what a polling loop
+	// would see, e.g. cancel a context, before it reaches its first scheduling point)
+	s.epoch++
+	t.own++
 	defer func() {
 		r := recover()
 		if s.aborting {
